@@ -895,6 +895,30 @@ func execC12[K comparable, V any](c pcCase, cd pcCodec[K, V], x *verifkit.Ctx) (
 			}
 		}
 	}
+	// 2a. a byte lost or gained at every offset (everything behind it shifts): one byte removed, one
+	// zero byte or one copy of the byte inserted
+	{
+		shifted := int64(0)
+		for off := 0; off < len(stream); off++ {
+			if !full && off%stride != 0 && !inHeader(off) {
+				continue
+			}
+			rem := append(append(make([]byte, 0, len(stream)), stream[:off]...), stream[off+1:]...)
+			if f := judge(fmt.Sprintf("byte %d (%#02x) removed", off, stream[off]), rem, off, false); f != nil {
+				f.Sig += "/byte-removed"
+				return f
+			}
+			for _, nb := range []byte{0x00, stream[off]} {
+				ins := append(append(append(make([]byte, 0, len(stream)+1), stream[:off]...), nb), stream[off:]...)
+				if f := judge(fmt.Sprintf("byte %#02x inserted at %d", nb, off), ins, off, false); f != nil {
+					f.Sig += "/byte-inserted"
+					return f
+				}
+			}
+			shifted += 3
+		}
+		verifkit.AddCount("c12_shifted_streams", shifted)
+	}
 	// 2b. two faults: a single fault that was tolerated silently (it may have switched a protection
 	// off: a renamed descriptor field, a zeroed header field) combined with a second fault anywhere
 	if len(silent) > 0 {
@@ -1064,7 +1088,7 @@ func TestVerifC12(t *testing.T) {
 	vkOwnPipeline()
 	verifkit.Run(t, verifkit.Spec[pcCase]{
 		ID: "C12", Gen: genPersist(true), Exec: dispatchC12,
-		Rule:        "C12: rapid draws a cache (types, MaxSize 1..30, saver uptime 0..30 days, build script with TTLs, elapsed time before the load) and 4..12 multi-byte damages; for each generated stream the executor enumerates EVERY truncation offset, EVERY single-bit flip and the substitutions {0x00,0xFF,+1} at EVERY offset (streams <= 4 KiB; sampled plus all header/type-descriptor offsets otherwise), pairs of faults (each single header/descriptor fault that was tolerated silently combined with two bit flips at each of ~200 positions spread over the stream; up to 24 such single faults per stream), the drawn multi-byte damages, the duplication, removal and pairwise swap of whole gob messages, and - with the gob type definitions hoisted to the front - every ordered selection of the block messages (blocks dropped and permuted; most streams carry a protected block); each damaged stream is loaded under the saved version and under another version; a stream is non-trivial when faults hit block header fields or gob type descriptors, or truncations fell inside the last message (always true for enumerated streams; distinct = distinct streams)",
+		Rule:        "C12: rapid draws a cache (types, MaxSize 1..30, saver uptime 0..30 days, build script with TTLs, elapsed time before the load) and 4..12 multi-byte damages; for each generated stream the executor enumerates EVERY truncation offset, EVERY single-bit flip and the substitutions {0x00,0xFF,+1} at EVERY offset (streams <= 4 KiB; sampled plus all header/type-descriptor offsets otherwise), one byte removed / a zero byte or a copy of the byte inserted at every such offset (the rest of the stream shifts), pairs of faults (each single header/descriptor fault that was tolerated silently combined with two bit flips at each of ~200 positions spread over the stream; up to 24 such single faults per stream), the drawn multi-byte damages, the duplication, removal and pairwise swap of whole gob messages, and - with the gob type definitions hoisted to the front - every ordered selection of the block messages (blocks dropped and permuted; most streams carry a protected block); each damaged stream is loaded under the saved version and under another version; a stream is non-trivial when faults hit block header fields or gob type descriptors, or truncations fell inside the last message (always true for enumerated streams; distinct = distinct streams)",
 		Assumptions: append([]string{"gob's length-prefixed framing is parsed by the harness to locate messages and the end of the metadata message"}, pcAssumptions...),
 	})
 }
